@@ -120,3 +120,68 @@ Theorem C02_spec_ok_sound : forall own ops,
     cv_val v1 = cv_val v2.
 Proof. exact spec_ok_no_equivocation. Qed.
 Print Assumptions C02_spec_ok_sound.
+
+(* ------------------------------------------------------------------------------------------
+   ATTEST-ONCE along single runs of the executable agreement model (the premise of crash_nonequiv).
+
+   C02_attest_once_partial -- PROVED for every parameter set with positive thresholds and EVERY event
+   sequence (premises [trace_ok2]: no uint64 wrap-around of round / period / step counters, round
+   interruptions move forward, verified payloads are of the player's round):
+     soft votes     by the Step soft -> cert transition,
+     next_k votes   (3 <= k < 253) by the napping / step++ discipline,
+   via the invariant "the position (round, period, 2*step + [not napping]) never decreases and every
+   soft / next_k attest crosses the boundary of its key" (proofs/AgreementAttestOnce.v).
+   MISSING (not proved here):
+     cert   needs the bind-once invariant of proposalTracker.Staging for (r,p): set by the single soft
+            threshold of (r,p) (contract: SawSoftThreshold) or by the round's first cert threshold
+            (voteTrackerRound keeps only the first), after which ensure / stageDigest pre-empt the attest;
+     late   same invariant (the value is the committable staged value);
+     redo   the value is voteTrackerPeriod.Cached of period p-1: unique only under
+            [thresholds_consistent] (next-type quorums of one period agree on their non-bottom value;
+            discharged in C01 from quorum intersection) -- C02_attest_once_redo_needs_consistency shows
+            that it FAILS without it, on the model and (harness, directed case) on the real code;
+     down   is bottom by construction, but a next vote of step 255 shares its key: needs step < late
+            (252 consecutive deadline timeouts; each doubles the wait).
+   The harness checks attest-once for ALL steps on every real single run (S3 of model/C02Check.v). *)
+From Coq Require Import NArith.
+From Verif.model Require Import AgreementPlayer.
+From Verif.proofs Require Import AgreementVoteProofs AgreementC03Proofs AgreementAttestOnce.
+Open Scope N_scope.
+
+Theorem C02_attest_once_partial : forall pm r0 es,
+  params_pos pm -> trace_ok2 pm (init pm r0) es ->
+  forall r p s v v', tracked s = true ->
+    In (AAttest r p s v) (all_acts pm (init pm r0) es) ->
+    In (AAttest r p s v') (all_acts pm (init pm r0) es) -> v = v'.
+Proof. exact attest_once_soft_next_proof. Qed.
+Print Assumptions C02_attest_once_partial.
+
+(* stronger form: a soft / next_k key does not even occur twice in the action stream of a run *)
+Theorem C02_attest_at_most_once_partial : forall pm r0 es,
+  params_pos pm -> trace_ok2 pm (init pm r0) es ->
+  forall l1 l2 l3 r p s v v', tracked s = true ->
+    all_acts pm (init pm r0) es <> l1 ++ AAttest r p s v :: l2 ++ AAttest r p s v' :: l3.
+Proof. exact attest_at_most_once_proof. Qed.
+Print Assumptions C02_attest_at_most_once_partial.
+
+(* anti-vacuity: a run that meets the premises and attests soft, next_3 and next_4 *)
+Example C02_attest_once_nonvacuous :
+  params_pos pmx /\ trace_ok2 pmx (init pmx 5) script_soft_next /\
+  filter (fun a => match a with AAttest _ _ _ _ => true | _ => false end) (all_acts pmx (init pmx 5) script_soft_next)
+  = [AAttest 5 0 1 vx1; AAttest 5 0 3 bottom; AAttest 5 0 4 bottom].
+Proof. exact (conj pmx_pos (conj script_soft_next_ok script_soft_next_acts)). Qed.
+
+(* the hypothesis for the remaining steps is not decorative: a run that meets every premise of
+   C02_attest_once_partial attests redo for two values; its delivered votes are not threshold-consistent *)
+Theorem C02_attest_once_redo_needs_consistency :
+  params_pos pmx /\ trace_ok2 pmx (init pmx 5) script_redo /\
+  In (AAttest 5 1 s_redo vx1) (all_acts pmx (init pmx 5) script_redo) /\
+  In (AAttest 5 1 s_redo vx2) (all_acts pmx (init pmx 5) script_redo) /\ vx1 <> vx2 /\
+  ~ thresholds_consistent pmx (delivered script_redo).
+Proof. exact redo_needs_consistency. Qed.
+Print Assumptions C02_attest_once_redo_needs_consistency.
+
+(* ... and it is satisfiable: it holds whenever the delivered votes carry a single value *)
+Example C02_thresholds_consistent_satisfiable : forall pm D v0,
+  params_pos pm -> (forall x, In x D -> vt_val x = v0) -> thresholds_consistent pm D.
+Proof. exact thresholds_consistent_single_value. Qed.
